@@ -524,7 +524,10 @@ def c16(tier, seed):
 def c17(tier, seed):
     nj, nc = (8, 30) if tier == "quick" else (32, 200)
     return dict(
-        jobs=[dict(kind="async17", n_cases=nc, big=(tier != "quick"), op_watchdog_s=30, **_seeds(seed, k)) for k in range(nj)],
+        jobs=[dict(kind="async17", n_cases=nc, big=(tier != "quick"), op_watchdog_s=30, **_seeds(seed, k)) for k in range(nj)]
+        # "records the same setup results as the DAG" also for setup results an execution found in the cache file it was started from
+        + [dict(kind="cache18", pid="C17", n_cases=(250 if tier == "quick" else 1500), only=["setup_result_taken_from_the_cache_file_was_not_kept_by_the_instance"],
+                **_seeds(seed + 25, k)) for k in range(2 if tier == "quick" else 4)],
         level="exploration",
         rule="per case: (1) one generated program (2..8 call sites, all resources, flags, optional setup nodes) built as DAG and as AsyncDAG and "
         "run under the controller or free: value, multiset of entered call sites and recorded setup results must be equal (and equal to the "
